@@ -59,7 +59,9 @@ func recTable() []map[string]string {
 		map[string]string{"txtvers": "1", "id": "i1", "path": "/ship/", "register": "true"},
 		map[string]string{"txtvers": "1", "path": "/ship/", "ski": "s4", "register": "false"},
 		map[string]string{"txtvers": "1", "id": "me", "path": "/ship/", "ski": own17, "register": "true"},
-		map[string]string{"txtvers": "1", "id": "i2", "ski": "s2", "register": "true"})
+		map[string]string{"txtvers": "1", "id": "i2", "ski": "s2", "register": "true"},
+		map[string]string{"id": "i3", "path": "/ship/", "ski": "s3", "register": "true"},
+		map[string]string{"txtvers": "1", "id": "i4", "path": "/ship/", "ski": "s4"})
 }
 
 type ev17 struct {
